@@ -31,14 +31,20 @@ Admitted(in) == in.ctype \in {"json", "text"}
 Kinds ==
   { k \in [op : Ops, id : {"i1"}, body : {"b1"}, cs : {"key", "tok", NoneStr}, cu : {"u1", "u2", "bad", NoneStr},
            ctype : {"json", "text", "xml", "bad", "absent"}, accept : {"json", "text", "none"}] :
-      /\ (k.op = "opB" => k.cs = NoneStr /\ k.cu = NoneStr)
-      /\ (k.op # "opB" => <<k.cs, k.cu>> \in {<<"key", "u1">>, <<"tok", "u2">>, <<"key", "bad">>, <<NoneStr, NoneStr>>})
+      /\ (k.op \in {"opB", "opE"} => k.cs = NoneStr /\ k.cu = NoneStr)
+      /\ (k.op \notin {"opB", "opE"} => <<k.cs, k.cu>> \in {<<"key", "u1">>, <<"tok", "u2">>, <<"key", "bad">>, <<NoneStr, NoneStr>>})
       /\ (k.op = "opC" => k.ctype = "absent") }
 
-Accessors == {"RouteInfo", "ContentType", "ResponseFormat", "ResponseFormatText", "Authorize", "BindAndValidate", "ResetAuth"}
+FormatAccessors == {"ResponseFormat", "ResponseFormatText", "ResponseFormatCharset"}
+Accessors == {"RouteInfo", "ContentType", "Authorize", "BindAndValidate", "ResetAuth"} \cup FormatAccessors
 
-OffersOf(a) == IF a = "ResponseFormatText" THEN {"text"} ELSE {"json", "text"}
+\* ResponseFormatCharset offers <<"text/plain; charset=utf-8">>: an offer is matched ignoring its parameters and
+\* returned (and remembered) exactly as offered
+OffersOf(a) == IF a \in {"ResponseFormatText", "ResponseFormatCharset"} THEN {"text"} ELSE {"json", "text"}
 Negotiated(in, offers) == IF in.accept \in offers THEN <<MediaOf(in.accept)>> ELSE << >>
+NegotiatedBy(in, a) == IF a = "ResponseFormatCharset"
+                       THEN (IF in.accept = "text" THEN <<"text/plain; charset=utf-8">> ELSE << >>)
+                       ELSE Negotiated(in, OffersOf(a))
 
 
 InitMemo == [route |-> FALSE, ct |-> << >>, fmt |-> << >>, pr |-> << >>, sc |-> << >>, bound |-> << >>,
@@ -64,9 +70,9 @@ Call(in, m, a) ==
          IF m.ct # << >> THEN Res(m, m.ct, TRUE, FALSE)
          ELSE IF ~CtypeParses(in) THEN Res(m, <<"err">>, FALSE, TRUE)
          ELSE Res([m EXCEPT !.ct = <<MediaOf(in.ctype)>>], <<MediaOf(in.ctype)>>, FALSE, FALSE)
-    [] a \in {"ResponseFormat", "ResponseFormatText"} ->
+    [] a \in FormatAccessors ->
          IF m.fmt # << >> THEN Res(m, m.fmt, TRUE, FALSE)
-         ELSE LET f == Negotiated(in, OffersOf(a)) IN
+         ELSE LET f == NegotiatedBy(in, a) IN
               IF f = << >> THEN Res(m, <<"">>, TRUE, FALSE)
               ELSE Res([m EXCEPT !.fmt = f], f, FALSE, FALSE)
     [] a = "Authorize" ->
@@ -90,7 +96,7 @@ Call(in, m, a) ==
 MemoHit(m, a) ==
   \/ a = "RouteInfo" /\ m.route
   \/ a = "ContentType" /\ m.ct # << >>
-  \/ a \in {"ResponseFormat", "ResponseFormatText"} /\ m.fmt # << >>
+  \/ a \in FormatAccessors /\ m.fmt # << >>
   \/ a = "Authorize" /\ m.pr # << >>
   \/ a = "BindAndValidate" /\ m.bound # << >>
 
@@ -100,7 +106,7 @@ ReusedNotRecomputed(in, m, a) ==
                    /\ r.m = m                                  \* nothing recomputed, no counter moves
                    /\ r.ret = (CASE a = "RouteInfo" -> <<Pattern(in.op), IdOf(in)>>
                                  [] a = "ContentType" -> m.ct
-                                 [] a \in {"ResponseFormat", "ResponseFormatText"} -> m.fmt
+                                 [] a \in FormatAccessors -> m.fmt
                                  [] a = "Authorize" -> m.pr \o m.sc
                                  [] a = "BindAndValidate" -> m.bound)
 
